@@ -62,6 +62,10 @@ class Scheduler:
         self.events = []
         self.algtime = {}
         self.delay_offset = 0
+        # Machines promised to observations that passed the capacity check
+        # in the current timestep but have not been provisioned yet
+        self._promised_ingest = 0
+        self._promised_at = None
 
     def start(self):
         """
@@ -169,7 +173,11 @@ class Scheduler:
 
         cluster_capacity = False
         pipeline_demand = pipelines[observation.name]['ingest_demand']
-        if self.cluster.check_ingest_capacity(pipeline_demand, max_ingest):
+        if self._promised_at != self.env.now:
+            self._promised_at = self.env.now
+            self._promised_ingest = 0
+        if self.cluster.check_ingest_capacity(
+                pipeline_demand + self._promised_ingest, max_ingest):
             if self.provision_ingest + pipeline_demand <= max_ingest:
                 cluster_capacity = True
                 if buffer_capacity:
@@ -177,6 +185,7 @@ class Scheduler:
                     # actually start; the reservation is released when its
                     # ingest ends.
                     self.provision_ingest += pipeline_demand
+                    self._promised_ingest += pipeline_demand
                 LOGGER.debug(
                     "Cluster is able to process ingest for observation %s",
                     observation.name)
